@@ -31,7 +31,8 @@ LEVEL_TEXT = ("Emitters are enumerated by introspection of the package; each is 
               "strings). The stdlib-decoded emitted form must be valid JSON-RPC 2.0 and parse_message of it must give the "
               "same kind with type-strictly equal id, method, params, result and error. Wire forms are captured at the stdio "
               "child's stdin and at the HTTP/SSE POST bodies."
-              ' Also envelope classes instantiated directly (relying on declared defaults) through every wire form.')
+              ' Also envelope classes instantiated directly (relying on declared defaults) through every wire form.'
+              ' Also whatever the server handler answers to id-less messages.')
 LEVEL_NOTE = ("Trusted: vf/ref.py validator; emitters that could not be driven are listed in evidence. id:null is tolerated "
               "only on the batch-rejection error (request id undeterminable).")
 RULE = ("case = (emitter, payload, id). Non-trivial: payload or id is not the trivial default; distinct = hash(emitter, "
